@@ -1124,6 +1124,59 @@ class ListEval:
         else:
             raise Abstain("pattern %s" % k)
 
+    def matches(self, pat, val, env):
+        k = pat.get("k")
+        if k in ("Wild", "Missing"):
+            return True
+        if k == "Binding":
+            env[pat["v"]] = val
+            if isinstance(pat.get("sub"), dict):
+                return self.matches(pat["sub"], val, env)
+            return True
+        if k in ("Deref", "DerefPattern"):
+            return self.matches(pat["sub"], val, env)
+        if k == "Leaf":
+            if val[0] != "tup":
+                raise Abstain("tuple pattern on %s" % val[0])
+            return all(self.matches(s_["pat"], val[1][s_["idx"]], env) for s_ in pat["subs"])
+        if k in ("Slice", "Array"):
+            if val[0] not in ("lst", "it"):
+                raise Abstain("slice pattern on %s" % val[0])
+            pre, suf = pat.get("prefix", []) or [], pat.get("suffix", []) or []
+            items = val[1]
+            if isinstance(pat.get("slice"), dict):
+                if len(items) < len(pre) + len(suf):
+                    return False
+                mid = items[len(pre):len(items) - len(suf)]
+                if not self.matches(pat["slice"], ("lst", mid), env):
+                    return False
+            elif len(items) != len(pre) + len(suf):
+                return False
+            for q, x in zip(pre, items[:len(pre)]):
+                if not self.matches(q, x, env):
+                    return False
+            for q, x in zip(suf, items[len(items) - len(suf):] if suf else []):
+                if not self.matches(q, x, env):
+                    return False
+            return True
+        if k == "Constant":
+            cv = self.const(val) if val[0] == "s" else None
+            want = pat.get("value")
+            try:
+                wv = int(str(want).replace("usize", "").replace("_", ""))
+            except (TypeError, ValueError):
+                raise Abstain("constant pattern %s" % want)
+            if cv is None:
+                raise Abstain("constant pattern against a symbol")
+            return cv == wv
+        if k == "Variant" and pat.get("adt") == "core::option::Option":
+            if val[0] != "opt":
+                raise Abstain("option pattern on %s" % val[0])
+            if pat.get("variant") == "Some":
+                return val[1] is not None and all(self.matches(s_["pat"], val[1], env) for s_ in pat.get("subs", []))
+            return val[1] is None
+        raise Abstain("pattern %s" % k)
+
     def num(self, v):
         if v[0] == "s":
             return v[1]
@@ -1236,10 +1289,33 @@ class ListEval:
             return ("clo", e["closure"], env)
         if k == "Index":
             base, i = self.ev(e["e"], env), self.ev(e["i"], env)
+            if base[0] == "vals":
+                return ("elem", self.num(i))
             ci = self.const(i) if i[0] == "s" else None
             if base[0] in ("lst", "it") and ci is not None and 0 <= ci < len(base[1]):
                 return base[1][ci]
             raise Abstain("index")
+        if k == "Field":
+            base = self.ev(e["e"], env)
+            if base[0] == "obj" and e.get("name") in base[1]:
+                return base[1][e["name"]]
+            if base[0] == "tup" and e.get("idx") is not None and e["idx"] < len(base[1]):
+                return base[1][e["idx"]]
+            raise Abstain("field %s of %s" % (e.get("name"), base[0]))
+        if k == "Match" and not str(e.get("source", "")).startswith("ForLoopDesugar"):
+            sv = self.ev(e["scrutinee"], env)
+            for a in e["arms"]:
+                env2 = dict(env)
+                m = self.matches(a["pat"], sv, env2)
+                if m and a.get("guard") is not None:
+                    m = self.truth(self.ev(a["guard"], env2))
+                if m:
+                    out = self.ev(a["body"], env2)
+                    for v in env:
+                        if v in env2:
+                            env[v] = env2[v]
+                    return out
+            raise Abstain("no match arm applies")
         fl = F.for_loop_parts(e)
         if fl:
             it, pat, body, _ = fl
@@ -1294,7 +1370,8 @@ class ListEval:
         args = e["args"]
         short = c.rsplit("::", 1)[-1]
         if c in ("core::slice::<impl [T]>::iter", "core::iter::traits::collect::IntoIterator::into_iter", IT_ + "copied", IT_ + "cloned",
-                 IT_ + "by_ref", "core::ops::deref::Deref::deref", "alloc::slice::<impl [T]>::to_vec", IT_ + "collect", "core::clone::Clone::clone"):
+                 IT_ + "by_ref", "core::ops::deref::Deref::deref", "alloc::slice::<impl [T]>::to_vec", IT_ + "collect", "core::clone::Clone::clone",
+                 "alloc::vec::Vec::<T, A>::as_slice", "core::convert::AsRef::as_ref", "core::borrow::Borrow::borrow"):
             v = self.ev(args[0], env)
             if v[0] in ("lst", "it"):
                 return ("it", list(v[1]))
@@ -1375,6 +1452,8 @@ class ListEval:
             return self.ev(fake, env)
         if c in INDEX_FNS and len(args) == 2:
             base, i = self.ev(args[0], env), self.ev(args[1], env)
+            if base[0] == "vals":
+                return ("elem", self.num(i))
             ci = self.const(i) if i[0] == "s" else None
             if base[0] in ("lst", "it") and ci is not None and 0 <= ci < len(base[1]):
                 return base[1][ci]
@@ -1400,8 +1479,12 @@ def r41_multi_index(facts):
     c = Ctx("R41", facts, "multi-index -> flat index is the row-major position for ranks 1..4 and all unit-dimension patterns")
     fns = [b for b in facts.fns() if (b.get("inputs") or []) == ["&[usize]", "&[usize]"] and b.get("output") == "usize"]
     c.floor("multi-index flattening functions (&[usize], &[usize]) -> usize", len(fns), 1)
-    for b in fns:
-        name = b.get("name")
+    impls = [b for b in facts.fns() if b.get("impl_trait_def") == "core::ops::index::Index" and b.get("impl_self") == ARRAY
+             and (b.get("inputs") or []) == ["&" + ARRAY, "alloc::vec::Vec<usize>"]]
+    c.floor("Index<Vec<usize>> implementations for Array", len(impls), 1)
+    for b in fns + impls:
+        name = b.get("name") if b in fns else "Index<Vec<usize>>"
+        is_impl = b not in fns
         where = "%s:%d" % (F.rel(b["file"]), b["sp"][0])
         n_ok = 0
         bad = None
@@ -1417,7 +1500,13 @@ def r41_multi_index(facts):
                         term = term * dims[j][1]
                     want = want + term
                 try:
-                    got = ListEval(facts).run(b, [("lst", idx), ("lst", dims)])
+                    if is_impl:
+                        got = ListEval(facts).run(b, [("obj", {"dimensions": ("lst", dims), "values": ("vals",)}), ("lst", idx)])
+                        if got[0] != "elem":
+                            raise Abstain("the result is not an element of the value buffer (%s)" % got[0])
+                        got = ("s", got[1])
+                    else:
+                        got = ListEval(facts).run(b, [("lst", idx), ("lst", dims)])
                     if got[0] != "s":
                         raise Abstain("result is %s" % got[0])
                     if got[1].equals(want):
